@@ -52,8 +52,12 @@ func (u *Unit) evalCall(call *ast.CallExpr, st *State) []Val {
 					continue
 				}
 			}
-			tmp := st.clone()
-			av := u.evalExpr(a, tmp)
+			// evaluated once, on the real state; the call itself reuses the value
+			av := u.evalExpr(a, st)
+			if u.argCache == nil {
+				u.argCache = map[ast.Expr]Val{}
+			}
+			u.argCache[a] = av
 			if av.S == "nil" {
 				continue
 			}
@@ -231,7 +235,13 @@ func (u *Unit) evalArgs(call *ast.CallExpr, sig *types.Signature, st *State) []V
 			pt = sig.Params().At(i).Type()
 		}
 		_ = variadicElem
-		v := u.evalExprExpect(a, pt, st)
+		var v Val
+		if cv, ok := u.argCache[a]; ok {
+			v = cv
+			delete(u.argCache, a)
+		} else {
+			v = u.evalExprExpect(a, pt, st)
+		}
 		if pt != nil {
 			if _, isTP := types.Unalias(pt).(*types.TypeParam); !isTP && !containsTypeParam(pt) {
 				v = u.convert(v, pt, st)
